@@ -251,6 +251,61 @@ def memo_key_gap(tree, fn, cls, key, value, implied=()):
     return sorted(d.expr(value, fn, {}) - d.expr(key, fn, {}) - set(implied))
 
 
+# attributes of an argument that a reviewed other attribute of the same object determines (a key that contains the
+# left-hand attribute covers the right-hand ones): FunctionSpace.identifier names the space kind, which fixes its
+# shapeset, order and codomain dimension; grid_id and grid name the same grid
+DETERMINED = {
+    "identifier": {"order", "shapeset", "codomain_dimension", "number_of_shape_functions", "requires_dof_transformation", "has_surface_curl", "has_surface_gradient",
+                   "is_barycentric", "numba_evaluate", "numba_surface_curl", "numba_surface_gradient", "is_localised"},
+    "grid_id": {"grid"},
+    "grid": {"grid_id"},
+}
+
+
+def memo_attr_gap(fn, key, value):
+    """Finer than memo_key_gap, for a memo whose key and value are both computed from the SAME argument object: the
+    attributes of that argument the stored value reads which the key neither reads nor determines (DETERMINED).  A key
+    that contains the object itself (or id(object)) covers everything.  {parameter: [attributes]}"""
+    from . import roles
+
+    defs = roles.Defs(fn)
+    a = fn.args
+    params = {x.arg for x in a.posonlyargs + a.args + a.kwonlyargs} - {"self", "cls"}
+
+    def reads(node):
+        node = roles.inline(node, defs)
+        parents = {}
+        for n in ast.walk(node):
+            for ch in ast.iter_child_nodes(n):
+                parents[id(ch)] = n
+        whole, attrs = set(), {}
+        for n in ast.walk(node):
+            if isinstance(n, ast.Name) and n.id in params:
+                par = parents.get(id(n))
+                if isinstance(par, ast.Attribute) and par.value is n:
+                    attrs.setdefault(n.id, set()).add(par.attr)
+                else:
+                    whole.add(n.id)
+        return whole, attrs
+
+    kw, ka = reads(key)
+    vw, va = reads(value)
+    out = {}
+    for p_ in sorted(set(va) | vw):
+        if p_ in kw:
+            continue
+        if p_ in vw and p_ not in ka:
+            continue  # (argument-level gaps are memo_key_gap's business)
+        have = set(ka.get(p_, ()))
+        covered = set(have)
+        for h in have:
+            covered |= DETERMINED.get(h, set())
+        gap = sorted(set(va.get(p_, ())) - covered)
+        if gap and have:
+            out[p_] = gap
+    return out
+
+
 def object_state_writes(tree):
     """State kept on an object that was handed in (a grid, a space, a parameter object): such objects are shared between
     operators, so what is written there survives the call exactly like module-level state.
@@ -337,6 +392,9 @@ def process_state(ctx, rule_id="FX-PROCESS-STATE"):
             if how != "store" or key is None or value is None:
                 raise AnalysisError("%s:%d %s writes module-level state `%s` (%s) that is not in the reviewed inventory (sa/state.py STATE_SITES): review what reads it and add it with a reason" % (rel, node.lineno, qn, name, how))
             gap = memo_key_gap(m.tree, fn, cls, key, value)
+            if not gap:
+                ag = memo_attr_gap(fn, key, value)
+                gap = ["%s.%s" % (p_, x) for p_, xs in ag.items() for x in xs]
             r.check(not gap, "%s::%s[%s]" % (rel.rsplit("/", 1)[-1], name, unparse(key)[:40]), rel, qn, node.lineno, "memo table %s in %s" % (name, qn),
                     "`%s[%s] = %s` keeps a value computed from %s in process-wide state, but the key is computed without %s: a later request that differs only in %s is served the stale entry (results depend on what was assembled before)" % (
                         name, unparse(key)[:50], unparse(value)[:70], "the arguments " + ", ".join(gap) + " (among others)", ", ".join(gap), ", ".join(gap)))
